@@ -130,7 +130,7 @@ Lemma events_complete_refuted :
   exists a, resolve (build w_ir3) w_r1 (TInlineBlock 1 (IPBefore 1) [VRes 3 0]) = Some a /\
             changed cir_sem (build w_ir3) (apply cir_sem true a (build w_ir3) w_r1) 2 /\
             In 2 (alive cir_sem (build w_ir3)) /\
-            ~ covered cir_sem (snd (exec cir_sem true a (build w_ir3) w_r1)) 2 /\
+            ~ covered cir_sem [] (snd (exec cir_sem true a (build w_ir3) w_r1)) 2 /\
             sets_flag cir_sem true a (build w_ir3) w_r1 = true.
 Proof.
   eexists. split; [vm_compute; reflexivity|]. split; [|split; [|split]].
@@ -179,7 +179,7 @@ Proof.
     + exfalso. apply H. reflexivity.
     + exfalso. apply H2. apply in_or_app. auto.
     + apply in_app_or in H2. destruct H2 as [H2|H2]; [contradiction|].
-      apply in_map_iff in H2. destruct H2 as (n & <- & Hn). exists n. auto.
+      apply in_map_iff in H2. destruct H2 as (n & <- & Hn). exists n. split; auto. left. reflexivity.
   - destruct Hc as [H|[[H1 H2]|[H1 H2]]].
     + exfalso. apply H. reflexivity.
     + left. destruct (Nat.eq_dec o0 o) as [E|E]; auto.
